@@ -151,7 +151,17 @@ func (c *softCase) txn() coin.Transaction {
 	return t
 }
 
+// dist derives the case's distribution parameters the two ways a node does: as a fresh value, or (odd head times)
+// as an edited copy of the built-in, already validated MainNetDistribution — whatever a Distribution value caches
+// must follow the parameters it carries now.
 func (c *softCase) dist() params.Distribution {
+	if c.headTime%2 == 1 {
+		d := params.MainNetDistribution
+		d.MaxCoinSupply = 1e8 * c.distN
+		d.InitialUnlockedCount = c.unlocked
+		d.Addresses = d.Addresses[:c.distN]
+		return d
+	}
 	return params.Distribution{MaxCoinSupply: 1e8 * c.distN, InitialUnlockedCount: c.unlocked,
 		Addresses: params.MainNetDistribution.Addresses[:c.distN]}
 }
@@ -252,6 +262,10 @@ func genSoft(r *Rng) *softCase {
 	c.unlocked = uint64(r.Intn(int(c.distN) + 1))
 	if r.Chance(40) {
 		c.distN, c.unlocked = 100, 25
+		if r.Chance(40) {
+			// the full address list with another lock boundary (around the built-in one, at the ends, anywhere)
+			c.unlocked = []uint64{0, 1, 20, 24, 26, 30, 99, 100, uint64(r.Intn(101))}[r.Intn(9)]
+		}
 	}
 	if r.Chance(1) {
 		c.unlocked = c.distN + 1
